@@ -311,9 +311,16 @@ def compare_reject_case(draw):
                     m2=[a in sub_b and b in sub_b for (a, b) in ref.pairs(n)])
     n1 = draw(st.integers(2 if where == 'within1' else 1, 3))
     n2 = draw(st.integers(2 if where == 'within2' else 1, 3))
-    counts = draw(st.sampled_from(['equal', 'equal', 'equal', 'unequal']))
+    counts = draw(st.sampled_from(['equal', 'equal', 'equal', 'unequal', 'one-complete']))
     m1 = draw(common_mask(p, 3))
-    if counts == 'equal':
+    if counts == 'one-complete':
+        # a complete stack (model predictions) against one with missing entries, in either order
+        where = 'between'
+        m2 = list(m1)
+        m1 = [True] * p
+        if draw(st.booleans()):
+            m1, m2 = m2, m1
+    elif counts == 'equal':
         m2 = draw(moved_mask(m1))
     else:
         m2 = list(m1)
